@@ -153,4 +153,432 @@ theorem reserve_elems (r : RawList) (n : Nat) : (r.reserve n).1.elems = r.elems 
 theorem push_elems (r : RawList) (v : Nat) : (r.push v).1.elems = r.elems ++ [v] := by
   simp [RawList.push, reserve_elems]
 
+theorem stepGood_done {t : Nat} {cells cells' : Nat → Cell} {op : Op} {pc : Nat} {r : Res}
+    {evs : List Ev} (ptr : Option Ptr) (acc : RawList)
+    (hframe : Frame t cells cells')
+    (hevs : ∀ e ∈ evs, e ≠ Ev.outside ∧ e ≠ Ev.stale) (hr : r ≠ .uaf)
+    (hsim : (∀ a b, op ≠ .concat a b) → specOp (absOf cells) op = (r, absOf cells'))
+    (habs : ∀ a b, op = .concat a b → absOf cells' = absOf cells) :
+    StepGood t cells op pc { cells := cells', ptr := ptr, acc := acc, next := .done r, evs := evs } where
+  frame := hframe
+  evs := hevs
+  notrap := by simp
+  cont := by simp
+  res := by intro r' h; simp at h; subst h; exact hr
+  sim := by intro r' h hc; simp at h; subst h; exact hsim hc
+  absConcat := habs
+
+theorem stepGood_cont {t : Nat} {cells cells' : Nat → Cell} {op : Op} {pc : Nat}
+    {evs : List Ev} {ptr : Option Ptr} (acc : RawList)
+    (hframe : Frame t cells cells')
+    (hevs : ∀ e ∈ evs, e ≠ Ev.outside ∧ e ≠ Ev.stale)
+    (hnext : OpPc cells' t ptr op (pc + 1)) (habs : absOf cells' = absOf cells) :
+    StepGood t cells op pc { cells := cells', ptr := ptr, acc := acc, next := .cont, evs := evs } where
+  frame := hframe
+  evs := hevs
+  notrap := by simp
+  cont := fun _ => ⟨hnext, habs⟩
+  res := by intro r' h; simp at h
+  sim := by intro r' h; simp at h
+  absConcat := fun _ _ _ => habs
+
+theorem lookup_good {t : Nat} {cells : Nat → Cell} {op : Op} {l i : Nat} {o : StepOut}
+    (hop : op = .get l i ∨ op = .ffiGet l i)
+    (h : lookupStep true t cells l i = some o) : StepGood t cells op 0 o := by
+  simp only [lookupStep] at h
+  split at h
+  · rename_i hfree
+    have hfree' := (isFree_iff _ _).1 hfree
+    split at h
+    · rename_i hi
+      cases h
+      refine stepGood_cont _ (frame_setOwner_free _ hfree') (by simp) ?_ (absOf_setOwner _ _ _)
+      have : Held (setOwner cells l (some t)) t (some ⟨l, (cells l).raw.gen, i⟩) l i := by
+        refine ⟨by simp [setOwner], by simp [setOwner], by simpa [setOwner] using hi⟩
+      rcases hop with h | h <;> subst h <;> exact this
+    · rename_i hi
+      cases h
+      refine stepGood_done _ _ (Frame.refl _ _) (by simp) (by simp) ?_ ?_
+      · intro _
+        have : (absOf cells l)[i]? = none := by
+          simp only [absOf]; exact List.getElem?_eq_none (Nat.le_of_not_lt hi)
+        rcases hop with h | h <;> subst h <;> simp [specOp, this]
+      · intros; rfl
+  · cases h
+
+theorem clone_good {t : Nat} {cells : Nat → Cell} {op : Op} {l i : Nat} {o : StepOut}
+    {relock : Bool}
+    (hop : op = .get l i ∨ op = .ffiGet l i)
+    (hh : Held cells t (some ⟨l, (cells l).raw.gen, i⟩) l i)
+    (h : cloneStep true relock cells ⟨l, (cells l).raw.gen, i⟩ = some o) :
+    StepGood t cells op 1 o := by
+  obtain ⟨ho, _, hi⟩ := hh
+  simp only [cloneStep, Bool.not_true, Bool.and_false, Bool.false_and, Bool.false_eq_true,
+    ↓reduceIte] at h
+  cases h
+  refine stepGood_done _ _ (frame_setOwner_own _ ho) (by simp) (by simp) ?_ ?_
+  · intro _
+    have : (absOf cells l)[i]? = some ((cells l).raw.elems.getD i 0) := by
+      simp only [absOf]
+      rw [List.getElem?_eq_getElem hi]
+      simp [List.getD_eq_getElem?_getD, List.getElem?_eq_getElem hi]
+    rcases hop with h | h <;> subst h <;> simp [specOp, this, absOf_setOwner]
+  · intro a b hc; exact absOf_setOwner _ _ _
+
+theorem opStep_good {F : Facts} (hF : F = Facts.guarded) {t : Nat} {cells : Nat → Cell}
+    {ptr : Option Ptr} {acc : RawList} {op : Op} {pc : Nat} {o : StepOut}
+    (hpc : OpPc cells t ptr op pc) (h : opStep F t cells ptr acc op pc = some o) :
+    StepGood t cells op pc o := by
+  subst hF
+  cases op with
+  | get l i =>
+    cases pc with
+    | zero => exact lookup_good (Or.inl rfl) (by simpa [opStep, Facts.guarded] using h)
+    | succ n =>
+      cases n with
+      | zero =>
+        have hp := hpc.2.1
+        subst hp
+        exact clone_good (Or.inl rfl) hpc (by simpa [opStep, Facts.guarded] using h)
+      | succ m => simp [OpPc] at hpc
+  | ffiGet l i =>
+    cases pc with
+    | zero => exact lookup_good (Or.inr rfl) (by simpa [opStep, Facts.guarded] using h)
+    | succ n =>
+      cases n with
+      | zero =>
+        have hp := hpc.2.1
+        subst hp
+        exact clone_good (Or.inr rfl) hpc (by simpa [opStep, Facts.guarded] using h)
+      | succ m => simp [OpPc] at hpc
+  | push l v =>
+    simp only [opStep] at h
+    split at h
+    · rename_i hfree
+      have hfree' := (isFree_iff _ _).1 hfree
+      have he := push_elems (cells l).raw v
+      generalize (cells l).raw.push v = pr at h he
+      obtain ⟨r', re⟩ := pr
+      cases h
+      refine stepGood_done _ _ (frame_setRaw_free _ hfree') ?_ (by simp) ?_ ?_
+      · intro e he; split at he <;> simp at he; subst he; simp
+      · intro _; simp only [specOp, absOf_setRaw]; simp at he; rw [he]; rfl
+      · intro a b hc; cases hc
+    · cases h
+  | contains l v =>
+    simp only [opStep] at h
+    split at h
+    · cases h
+      exact stepGood_done _ _ (Frame.refl _ _) (by simp) (by simp) (fun _ => rfl) (fun _ _ _ => rfl)
+    · cases h
+  | swap l i j =>
+    simp only [opStep] at h
+    split at h
+    · rename_i hfree
+      have hfree' := (isFree_iff _ _).1 hfree
+      cases h
+      refine stepGood_done _ _ (frame_setRaw_free _ hfree') (by simp) (by simp) ?_ ?_
+      · intro _; simp only [specOp, absOf_setRaw]; rfl
+      · intro a b hc; cases hc
+    · cases h
+  | len l =>
+    simp only [opStep] at h
+    split at h
+    · cases h
+      exact stepGood_done _ _ (Frame.refl _ _) (by simp) (by simp) (fun _ => rfl) (fun _ _ _ => rfl)
+    · cases h
+  | clone l =>
+    simp only [opStep] at h
+    cases h
+    exact stepGood_done _ _ (frame_rc _) (by simp) (by simp)
+      (fun _ => by simp [specOp, absOf_rc]) (fun _ _ hc => by cases hc)
+  | drop l =>
+    simp only [opStep] at h
+    cases h
+    refine stepGood_done _ _ (frame_rc _) ?_ (by simp)
+      (fun _ => by simp [specOp, absOf_rc]) (fun _ _ hc => by cases hc)
+    intro e he; split at he <;> simp at he; subst he; simp
+  | eq a b =>
+    cases pc with
+    | zero =>
+      simp only [opStep] at h
+      split at h
+      · rename_i hab
+        cases h
+        subst hab
+        exact stepGood_done _ _ (Frame.refl _ _) (by simp) (by simp)
+          (fun _ => by simp [specOp]) (fun _ _ hc => by cases hc)
+      · rename_i hab
+        split at h
+        · rename_i hfree
+          have hfree' := (isFree_iff _ _).1 hfree
+          cases h
+          exact stepGood_cont _ (frame_setOwner_free _ hfree') (by simp)
+            ⟨hab, by simp [setOwner]⟩ (absOf_setOwner _ _ _)
+        · cases h
+    | succ n =>
+      cases n with
+      | zero =>
+        simp only [opStep] at h
+        split at h
+        · cases h
+          refine stepGood_done _ _ (frame_setOwner_own _ hpc.2) (by simp) (by simp) ?_ ?_
+          · intro _; simp [specOp, absOf_setOwner]; rfl
+          · intro a b hc; cases hc
+        · cases h
+      | succ m => simp [OpPc] at hpc
+  | concat a b =>
+    cases pc with
+    | zero =>
+      simp only [opStep] at h
+      split at h
+      · rename_i hfree
+        have hfree' := (isFree_iff _ _).1 hfree
+        cases h
+        exact stepGood_cont _ (frame_setOwner_free _ hfree') (by simp)
+          (by simp [OpPc, setOwner]) (absOf_setOwner _ _ _)
+      · cases h
+    | succ n =>
+      cases n with
+      | zero =>
+        simp only [opStep] at h
+        generalize (RawList.extend {} (cells a).raw.elems) = pr at h
+        obtain ⟨acc', re⟩ := pr
+        cases h
+        refine stepGood_cont _ (frame_setOwner_own _ hpc) ?_ (by simp [OpPc]) (absOf_setOwner _ _ _)
+        intro e he; split at he <;> simp at he; subst he; simp
+      | succ m =>
+        cases m with
+        | zero =>
+          simp only [opStep] at h
+          split at h
+          · generalize (acc.extend (cells b).raw.elems) = pr at h
+            obtain ⟨acc', re⟩ := pr
+            cases h
+            refine stepGood_done _ _ (Frame.refl _ _) ?_ (by simp) ?_ (fun _ _ _ => rfl)
+            · intro e he; split at he <;> simp at he; subst he; simp
+            · intro hc; exact absurd rfl (hc a b)
+          · cases h
+        | succ k => simp [OpPc] at hpc
+
+/-! ### one step of the whole system -/
+
+/-- what one step of thread `t` does to the ghost log and the abstract view -/
+inductive HistStep (t : Nat) (s s' : State) : Prop
+  /-- the operation goes on: nothing observable changed -/
+  | quiet (hh : s'.hist = s.hist) (ha : abs s' = abs s)
+      (hr : ∀ u, (s'.threads u).results = (s.threads u).results)
+  /-- the operation completes with result `r`: it is the sequential operation applied now -/
+  | completes (op : Op) (rest : List Op) (r : Res) (hp : (s.threads t).prog = op :: rest)
+      (hh : s'.hist = s.hist ++ [⟨t, op, r⟩]) (hne : r ≠ .uaf)
+      (hsim : (∀ a b, op ≠ .concat a b) → specOp (abs s) op = (r, abs s'))
+      (hc : ∀ a b, op = .concat a b → abs s' = abs s)
+      (hr : ∀ u, (s'.threads u).results = (s.threads u).results ++ (if u = t then [r] else []))
+
+structure StepFacts (t : Nat) (s s' : State) : Prop where
+  inv : Inv s'
+  trace : ∃ evs, s'.trace = s.trace ++ [(t, evs)] ∧ ∀ e ∈ evs, e ≠ Ev.outside ∧ e ≠ Ev.stale
+  hist : HistStep t s s'
+  /-- programs only shrink -/
+  progs : ∀ u op, op ∈ (s'.threads u).prog → op ∈ (s.threads u).prog
+
+theorem step_facts {F : Facts} (hF : F = Facts.guarded) {t : Nat} {s s' : State}
+    (hinv : Inv s) (h : step F t s = some s') : StepFacts t s s' := by
+  unfold step at h
+  simp only at h
+  split at h
+  · cases h
+  · split at h
+    · cases h
+    · rename_i op rest hprog
+      split at h
+      · cases h
+      · rename_i o hop
+        have hpc : OpPc s.cells t (s.threads t).ptr op (s.threads t).pc := by
+          have := hinv t
+          unfold PcOK at this
+          rw [hprog] at this
+          exact this
+        have g := opStep_good hF hpc hop
+        split at h
+        · -- cont
+          rename_i hnext
+          cases h
+          obtain ⟨hn, ha⟩ := g.cont hnext
+          refine ⟨?_, ⟨o.evs, rfl, g.evs⟩, ?_, ?_⟩
+          · intro u
+            by_cases hu : u = t
+            · subst hu
+              simp only [upd_same]
+              unfold PcOK
+              simp only [hprog]
+              exact hn
+            · simp only [upd_other _ _ _ _ hu]
+              exact pcOK_frame g.frame hu (hinv u)
+          · refine .quiet rfl ha ?_
+            intro u
+            by_cases hu : u = t
+            · subst hu; simp
+            · simp [upd_other _ _ _ _ hu]
+          · intro u op' hop'
+            by_cases hu : u = t
+            · subst hu; simpa [hprog] using hop'
+            · simpa [upd_other _ _ _ _ hu] using hop'
+        · -- done
+          rename_i r hnext
+          cases h
+          refine ⟨?_, ⟨o.evs, rfl, g.evs⟩, ?_, ?_⟩
+          · intro u
+            by_cases hu : u = t
+            · subst hu
+              simp only [upd_same]
+              unfold PcOK
+              simp only
+              split <;> simp [OpPc]
+            · simp only [upd_other _ _ _ _ hu]
+              exact pcOK_frame g.frame hu (hinv u)
+          · refine .completes op rest r hprog rfl (g.res r hnext) (g.sim r hnext) g.absConcat ?_
+            intro u
+            by_cases hu : u = t
+            · subst hu; simp
+            · simp [hu]
+          · intro u op' hop'
+            by_cases hu : u = t
+            · subst hu
+              simp only [upd_same] at hop'
+              rw [hprog]; exact List.mem_cons_of_mem _ hop'
+            · simpa [upd_other _ _ _ _ hu] using hop'
+        · -- trap
+          rename_i hnext
+          exact absurd hnext g.notrap
+
+theorem specRun_append (σ : Spec) (xs ys : List Op) :
+    specRun σ (xs ++ ys) =
+      ((specRun σ xs).1 ++ (specRun (specRun σ xs).2 ys).1, (specRun (specRun σ xs).2 ys).2) := by
+  induction xs generalizing σ with
+  | nil => simp [specRun]
+  | cons x xs ih =>
+    simp only [List.cons_append, specRun]
+    rw [ih]
+
+theorem specRun_snoc (σ : Spec) (xs : List Op) (op : Op) (rs : List Res) (σ' : Spec) (r : Res) (σ'' : Spec)
+    (h1 : specRun σ xs = (rs, σ')) (h2 : specOp σ' op = (r, σ'')) :
+    specRun σ (xs ++ [op]) = (rs ++ [r], σ'') := by
+  rw [specRun_append, h1]
+  simp [specRun, h2]
+
+/-- what a whole schedule guarantees, relative to its start state -/
+structure RunFacts (s s' : State) : Prop where
+  inv : Inv s'
+  /-- the new part of the ghost log -/
+  hist : ∃ ds, s'.hist = s.hist ++ ds ∧ (∀ d ∈ ds, d.res ≠ .uaf) ∧
+    (∀ d ∈ ds, d.op ∈ (s.threads d.tid).prog) ∧
+    (∀ u, (s'.threads u).results = (s.threads u).results ++ ((ds.filter (·.tid = u)).map (·.res))) ∧
+    ((∀ d ∈ ds, ∀ a b, d.op ≠ .concat a b) →
+      specRun (abs s) (ds.map (·.op)) = (ds.map (·.res), abs s'))
+  trace : ∃ tr, s'.trace = s.trace ++ tr ∧ ∀ e ∈ tr, ∀ x ∈ e.2, x ≠ Ev.outside ∧ x ≠ Ev.stale
+  progs : ∀ u op, op ∈ (s'.threads u).prog → op ∈ (s.threads u).prog
+
+theorem run_facts {F : Facts} (hF : F = Facts.guarded) :
+    ∀ (sched : List Nat) (s s' : State), Inv s → run F s sched = some s' → RunFacts s s' := by
+  intro sched
+  induction sched with
+  | nil =>
+    intro s s' hinv h
+    simp only [run, Option.some.injEq] at h
+    subst h
+    exact ⟨hinv, ⟨[], by simp [specRun]⟩, ⟨[], by simp⟩, fun _ _ h => h⟩
+  | cons t rest ih =>
+    intro s s' hinv h
+    simp only [run] at h
+    split at h
+    · cases h
+    · rename_i s1 hstep
+      have f1 := step_facts hF hinv hstep
+      have f2 := ih s1 s' f1.inv h
+      obtain ⟨ds, hds, hne, hmem, hres, hsim⟩ := f2.hist
+      obtain ⟨tr, htr, htrg⟩ := f2.trace
+      obtain ⟨evs, hevs, hevg⟩ := f1.trace
+      refine ⟨f2.inv, ?_, ⟨(t, evs) :: tr, by rw [htr, hevs]; simp, ?_⟩,
+        fun u op h' => f1.progs u op (f2.progs u op h')⟩
+      · cases f1.hist with
+        | quiet hh ha hr =>
+          refine ⟨ds, by rw [hds, hh], hne, fun d hd => f1.progs _ _ (hmem d hd), ?_, ?_⟩
+          · intro u; rw [hres u, hr u]
+          · intro hc; rw [← ha]; exact hsim hc
+        | completes op rest' r hp hh hne' hsim' hc hr =>
+          refine ⟨⟨t, op, r⟩ :: ds, by rw [hds, hh]; simp, ?_, ?_, ?_, ?_⟩
+          · intro d hd
+            rcases List.mem_cons.1 hd with h' | h'
+            · subst h'; exact hne'
+            · exact hne d h'
+          · intro d hd
+            rcases List.mem_cons.1 hd with h' | h'
+            · subst h'; simp [hp]
+            · exact f1.progs _ _ (hmem d h')
+          · intro u
+            rw [hres u, hr u]
+            by_cases hu : u = t
+            · subst hu; simp
+            · have : ¬ t = u := fun h => hu h.symm
+              simp [hu, this]
+          · intro hc
+            have hop : ∀ a b, op ≠ .concat a b := hc ⟨t, op, r⟩ (by simp)
+            have h1 := hsim' hop
+            have h2 := hsim (fun d hd => hc d (List.mem_cons_of_mem _ hd))
+            simp only [List.map_cons, specRun, h1, h2]
+      · intro e he
+        rcases List.mem_cons.1 he with h' | h'
+        · subst h'; exact hevg
+        · exact htrg e h'
+
+theorem inv_init (lists : List (List Nat)) (progs : List (List Op)) : Inv (init lists progs) := by
+  intro t
+  unfold PcOK init
+  simp only
+  split <;> simp [OpPc]
+
+/-- the ghost log only grows (any facts) -/
+theorem step_hist_grows {F : Facts} {t : Nat} {s s' : State} (h : step F t s = some s') :
+    ∃ ds, s'.hist = s.hist ++ ds := by
+  unfold step at h
+  simp only at h
+  split at h
+  · cases h
+  · split at h
+    · cases h
+    · split at h
+      · cases h
+      · split at h
+        · cases h; exact ⟨[], by simp⟩
+        · cases h; exact ⟨_, rfl⟩
+        · cases h; exact ⟨_, rfl⟩
+
+theorem run_hist_grows {F : Facts} : ∀ (sched : List Nat) (s s' : State),
+    run F s sched = some s' → ∃ ds, s'.hist = s.hist ++ ds := by
+  intro sched
+  induction sched with
+  | nil => intro s s' h; simp only [run, Option.some.injEq] at h; subst h; exact ⟨[], by simp⟩
+  | cons t rest ih =>
+    intro s s' h
+    simp only [run] at h
+    split at h
+    · cases h
+    · rename_i s1 hs
+      obtain ⟨d1, h1⟩ := step_hist_grows hs
+      obtain ⟨d2, h2⟩ := ih s1 s' h
+      exact ⟨d1 ++ d2, by rw [h2, h1]; simp⟩
+
+theorem run_append {F : Facts} : ∀ (pre post : List Nat) (s : State),
+    run F s (pre ++ post) = (run F s pre).bind fun s1 => run F s1 post := by
+  intro pre
+  induction pre with
+  | nil => intro post s; simp [run]
+  | cons t rest ih =>
+    intro post s
+    simp only [List.cons_append, run]
+    split
+    · simp
+    · rename_i s1 _; exact ih post s1
+
 end RotoV.ListConc
